@@ -29,7 +29,7 @@ UNIT = {
                 ('env . traps . enable_internal_disposition_for_sigchld ( & env . system )', 'verif_enable_sigchld(env)'),
                 ('env . system . wait ( Pid :: ALL )', 'verif_wait(env, Pid::ALL)'),
                 ('for signal in signals . iter ( ) . cloned ( )', 'let ghost verif_sigs = signals.list@; let ghost verif_n1 = env.log@.len() as int; let mut verif_rest = verif_to_vec(&signals); while let Some(signal) = verif_next_signal(&mut verif_rest)'),
-                ('env . jobs . update_status ( pid , state )', 'verif_update_status(env, pid, state)'),
+                ('env . jobs . update_status ( pid , state )', 'verif_update_status(env, pid, state)', '*'),
                 ('Err ( Error :: SystemError ( errno ) )', 'Err(Error::SystemError(errno))', '*'),
             ],
             'ensures': [
